@@ -278,6 +278,11 @@ class Validator:
                 self.ob("dead-code", True, f"{ctx}: statement after return/raise/break/continue dropped", b, None)
                 i += 1
                 continue
+            if isinstance(b, ast.Try) and not b.handlers and self._empties(b.finalbody) and not isinstance(a, ast.Try):
+                # a try with no handlers whose finally clause does nothing is its body
+                self.ob("try-with-empty-finally", True, f"{ctx}: try without handlers and with an effect-free finally replaced by its body", b, None)
+                bs = list(bs[:i]) + list(b.body) + list(bs[i + 1:])
+                continue
             # allowed drops -------------------------------------------------
             if isinstance(b, ast.Expr) and isinstance(b.value, (ast.Constant, ast.Name)) and not (
                     a is not None and ast.dump(a) == ast.dump(b)):
